@@ -97,14 +97,17 @@ func checkSrc(src []byte) (vs []kit.V, valid bool) {
 			add("not-a-prefix", fmt.Sprintf("ReadImports(%q) returned %q, which is not a leading portion of the input", src, r.buf))
 		}
 	}
-	if rt.err != nil && rt.err.Error() == "syntax error" {
+	// The input is read from memory: no I/O error can occur, and without a NUL byte
+	// in it every error is a syntax error, however it is worded or wrapped.
+	noNUL := bytes.IndexByte(src, 0) < 0
+	if rt.err != nil && (rt.err.Error() == "syntax error" || noNUL) {
 		whole := src
 		if bytes.HasPrefix(src, bom) && bytes.Equal(rf.buf, src[3:]) {
 			whole = src[3:] // a byte-order mark aside
 		}
 		// An error other than a syntax error (NUL byte, I/O) may still be reported;
 		// the statement only fixes what happens to syntax errors.
-		if rf.err != nil && rf.err.Error() != "syntax error" {
+		if rf.err != nil && rf.err.Error() != "syntax error" && !noNUL {
 			// reported, nothing more to demand
 		} else if rf.err != nil || !bytes.Equal(rf.buf, whole) {
 			add("syntax-error-fallback", fmt.Sprintf("ReadImports(%q, reportSyntaxError=true) reports a syntax error, but with false it returns (%q, %v) instead of the whole input and nil", src, rf.buf, rf.err))
